@@ -24,7 +24,7 @@ from checks import c05_separable as c05
 
 PROPERTY = 'C13'
 GUARD = ['numqi.entangle.eof', 'numqi.entangle.measure', 'numqi.entangle._misc']  # argument-immutability oracle (mc.seams.ImmutabilityGuard)
-GUARD_LAYOUT = ['numqi.entangle']  # memory-layout metamorphic oracle (same wrapper)
+GUARD_LAYOUT = ['numqi.entangle._misc', 'numqi.entangle.eof.get_', 'numqi.entangle.measure.get_gme_2qubit']  # memory-layout metamorphic oracle: eigenvalue-based functions only (SDP / LP optima differ by solver tolerance)
 LEVEL = 'model_checking'
 RULE = ('part A: state = explicit two-qubit ensemble reached by mix-in events (weights 1/2, 0.1, 1e-6) from one component of the alphabet '
         '{49 product states of the C05 local alphabets, 4 Bell states, partially/weakly entangled pure states, generic entangled atoms, '
